@@ -11,7 +11,7 @@ for n in $names; do
   dm=$(echo "$out" | grep "demo on mutated" | sed 's/.*exit //'); dc=$(echo "$out" | grep "demo on /repo" | sed 's/.*exit //')
   echo "$out" | grep "^check " | while read -r line; do
     id=$(echo $line | awk '{print $2}'); rc=$(echo $line | awk '{print $5}'); kind=$(echo "$line" | grep -oE "kind=[a-z0-9-]+" | head -1)
-    printf "%s\t%s\t%s\tdemo_mut=%s\tdemo_head=%s\texit=%s\t%s\n" "$n" "$id" "$tests" "$dm" "$dc" "$rc" "$kind" | tee -a seeded/RESULTS.tsv
+    printf "%s\t%s\t%s\tdemo_mut=%s\tdemo_head=%s\texit=%s\t%s\n" "$n" "$id" "$tests" "$dm" "$dc" "$rc" "$kind" | tee -a ${OUT:-seeded/RESULTS.tsv}
   done
-  echo "$out" | grep -q "PATCH-DOES-NOT-APPLY" && printf "%s\tPATCH-DOES-NOT-APPLY\n" "$n" | tee -a seeded/RESULTS.tsv
+  echo "$out" | grep -q "PATCH-DOES-NOT-APPLY" && printf "%s\tPATCH-DOES-NOT-APPLY\n" "$n" | tee -a ${OUT:-seeded/RESULTS.tsv}
 done
